@@ -26,8 +26,8 @@ class MemClient:
     def close(self) -> None:
         self.to_server.close_write()
 
-    def reset(self) -> None:
-        self.to_server.reset = ConnectionResetError(104, "Connection reset by peer")
+    def reset(self, exc: BaseException | None = None) -> None:
+        self.to_server.reset = exc if exc is not None else ConnectionResetError(104, "Connection reset by peer")
         self.to_server.wake_readers()
 
     def received(self) -> bytes:
